@@ -59,7 +59,7 @@ theorem inside_unchanged (m : Method) (r : Rounding) (lo hi x y : Rat)
 theorem moved_only_if_outside (m : Method) (r : Rounding) (lo hi x y : Rat)
     (hy : repair m r lo hi x = some y) (hne : y ≠ x) : x < lo ∨ hi < x := by
   by_contra hcon
-  push_neg at hcon
+  push Not at hcon
   exact hne (inside_unchanged m r lo hi x y hcon.1 hcon.2 hy)
 
 /-- clip moves to the nearest face. -/
